@@ -3,6 +3,7 @@ package props
 import (
 	"bytes"
 	"fmt"
+	"io"
 	"math/big"
 	"reflect"
 	"regexp"
@@ -32,9 +33,16 @@ func rulesAccept(evs []ev.Event, cfg *configuration.Configuration) (int, error) 
 
 // encodeWith plays events through rules into an encoder writing to a buffer.
 // The low-level receivers signal errors by panic; Play converts that into (index, err).
+// The destination alternates, as a function of the stream, between a bytes.Buffer (which has WriteString and
+// the other fast paths) and a plain io.Writer that has Write only: what an encoder writes must not depend
+// on which optional interfaces its destination happens to implement.
 func encodeWith(enc ce.Encoder, evs []ev.Event, cfg *configuration.Configuration, withRules bool) ([]byte, int, error) {
 	var buf bytes.Buffer
-	enc.PrepareToEncode(&buf)
+	if len(evs)%2 == 1 {
+		enc.PrepareToEncode(plainWriter{&buf})
+	} else {
+		enc.PrepareToEncode(&buf)
+	}
 	var rcv events.DataEventReceiver = enc
 	if withRules {
 		rcv = ce.NewRules(enc, cfg)
@@ -42,6 +50,11 @@ func encodeWith(enc ce.Encoder, evs []ev.Event, cfg *configuration.Configuration
 	idx, err := ev.Play(evs, rcv)
 	return buf.Bytes(), idx, err
 }
+
+// plainWriter hides every method of its destination but Write.
+type plainWriter struct{ w io.Writer }
+
+func (p plainWriter) Write(b []byte) (int, error) { return p.w.Write(b) }
 
 func encodeCBE(evs []ev.Event, cfg *configuration.Configuration) ([]byte, int, error) {
 	return encodeWith(ce.NewCBEEncoder(cfg), evs, cfg, true)
